@@ -395,6 +395,10 @@ pub fn mk_linter(dialect: &str, rules: &str, cfg: &LayoutCfg) -> Linter {
 
 pub type Linters = HashMap<(String, String, String), Linter>;
 pub fn linter<'a>(ls: &'a mut Linters, dialect: &str, rules: &str, cfg: &'static LayoutCfg) -> &'a Linter {
+    // every Linter owns an expanded dialect grammar (several MB): bound the per-thread cache
+    if ls.len() >= 12 && !ls.contains_key(&(dialect.to_string(), rules.to_string(), cfg.name.to_string())) {
+        ls.clear();
+    }
     ls.entry((dialect.to_string(), rules.to_string(), cfg.name.to_string())).or_insert_with(|| mk_linter(dialect, rules, cfg))
 }
 
